@@ -264,6 +264,14 @@ fn prim_inputs(o: &Opts, rng: &mut Rng) -> Vec<[f32; 3]> {
     }
     px.push([1.0, 1.0, 1.0]);
     px.push([0.0, 0.0, 0.0]);
+    // values whose BITS a "multiply by the identity matrix" would change although their value stays (signed zeros),
+    // subnormals and the smallest normals (flush-to-zero paths)
+    px.push([-0.0, 0.5, 0.25]);
+    px.push([0.5, -0.0, 0.25]);
+    px.push([0.25, 0.5, -0.0]);
+    px.push([-0.0, -0.0, -0.0]);
+    px.push([1.0e-40, -1.0e-40, 1.0e-45]);
+    px.push([f32::MIN_POSITIVE, -f32::MIN_POSITIVE, -1.0e-45]);
     let nr = if o.thorough { 2000 } else { 300 };
     for _ in 0..nr {
         px.push([rng.f32_in(-0.5, 2.0), rng.f32_in(-0.5, 2.0), rng.f32_in(-0.5, 2.0)]);
